@@ -646,7 +646,9 @@ theorem abbrP_ok (hc : Closed Ok) (hb : Ok b) (hr : AllOk Ok rest) {refs' : Refs
         · injection h with h
           injection h with _ h
           exact h ▸ hrest
-        · cases h
+        · injection h with h
+          injection h with _ h
+          exact h ▸ hrest
       · injection h with h
         injection h with _ h
         exact h ▸ hrest
